@@ -13,7 +13,8 @@
   a point outside every column yields nothing               outside_gives_none (every search aid)
   same result whichever aid: none / guess / bounds /         methods_agree, plain_agrees_with_exhaustive
     column subset containing the answer
-  ... / quadtree                                            quadtree_agrees_or_none_partial, quadtree_search_complete_partial
+  ... / quadtree                                            quadtree_agrees_or_none_partial, quadtree_search_complete_partial,
+                                                            quadtree_search_complete_rectangular, quadtree_agrees_with_plain_rectangular
   containment and the bounding-box pre-filter               in_polygon_in_bounding_rectangle (crossing parity)
   quadtree structure                                        quadtree_partition, quadtree_leaf_contains_point,
                                                             quadtree_leaf_exists
@@ -25,7 +26,8 @@
     geometry of the listed classes.  It is false in general (two islands: `search_wave` only walks through
     neighbours whose bounding boxes meet the leaf rectangle).  Proved instead: "agrees or returns None"
     unconditionally, and "finds it" whenever the column is reachable in the neighbour graph that
-    `search_wave` explores (a breadth-first-search completeness theorem); the planar step is left out.
+    `search_wave` explores (a breadth-first-search completeness theorem); the planar step is proved for
+    rectangular lattices (`quadtree_search_complete_rectangular`) and left out for other geometries.
   * `column_track` (Model/Track.lean) — proved: every entry/exit point is on the line and on (or, for the
     line's own end points, inside) its column; sorted by entry distance; no column twice; the crossing of
     an edge does not depend on the edge's direction (so exit and entry through a shared edge coincide);
@@ -41,6 +43,7 @@
 import PyTough.Model.Locate
 import PyTough.Proofs.Locate
 import PyTough.Proofs.LocateWave
+import PyTough.Proofs.LocateMore
 import PyTough.Model.Track
 import PyTough.Proofs.LocateTrack4
 
@@ -169,6 +172,57 @@ theorem quadtree_search_complete_partial (g : Geo) (pos : Pt) (c : Nat) (a : Aid
   unfold columnContainingPoint
   rw [hb, hq]
   exact guessSearch_complete_qtree hu hc hl hr
+
+/-- **Completeness of the quadtree search on rectangular lattices** (no reachability hypothesis).
+    `Lattice g nx ny xs ys`: the columns' bounding boxes are the cells of a full `nx × ny` lattice with
+    grid lines `xs 0 ≤ … ≤ xs nx`, `ys 0 ≤ … ≤ ys ny` (column `i + nx·j` is cell `(i, j)`), each centre is
+    in its cell, and cells sharing a side are neighbours — what `mulgrid().rectangular(...)` builds.  With
+    the quadtree that `column_quadtree()` builds over all columns, in any bounds covering the lattice, the
+    search with the quadtree — and any guess, column subset, and bounds holding the point — returns the
+    column that contains the point.  The planar step proved here: from any element of the point's leaf,
+    walking along its row and then along the target's column only visits cells whose bounding boxes meet
+    the leaf rectangle, so `search_wave` gets there. -/
+theorem quadtree_search_complete_rectangular (g : Geo) (nx ny : Nat) (xs ys : Nat → Rat) (L : Lattice g nx ny xs ys)
+    (bounds : Rect) (hcov : Covers bounds nx ny xs ys) (pos : Pt) (c : Nat) (a : Aids) (q : QT)
+    (hu : UniqueAt g pos) (hc : g.containsPoint c pos = true)
+    (hq : a.qtree = some q) (hbuilt : columnQuadtree g bounds (List.range g.ncols) = some q)
+    (hb : inBounds pos a.bounds = true) :
+    columnContainingPoint g pos a = some c := by
+  obtain ⟨l, hl, hne, hr⟩ := lattice_leaf_reach L hbuilt hcov hc
+  obtain ⟨e, he⟩ := List.exists_mem_of_ne_nil _ hne
+  exact quadtree_search_complete_partial g pos c a q l hu hc hq hb hl ⟨e, he, hr e he⟩
+
+/-- **Axis-aligned rectangular columns form a `Lattice`**: if column `i + nx·j` has all its nodes in the cell
+    `[xs i, xs (i+1)] × [ys j, ys (j+1)]` and the cell's bottom-left and top-right corners among them (a
+    rectangle, nodes in any order or orientation), its `bounding_box` is that cell — so the `bbox` clause of
+    `Lattice` is derived from the polygons rather than assumed. -/
+theorem rectangular_columns_form_lattice (g : Geo) (nx ny : Nat) (xs ys : Nat → Rat)
+    (hn : g.ncols = nx * ny) (hx : ∀ i, i < nx → xs i ≤ xs (i + 1)) (hy : ∀ j, j < ny → ys j ≤ ys (j + 1))
+    (hpoly : ∀ i j, i < nx → j < ny →
+      (xs i, ys j) ∈ g.poly (i + nx * j) ∧ (xs (i + 1), ys (j + 1)) ∈ g.poly (i + nx * j) ∧
+      ∀ q ∈ g.poly (i + nx * j), inRectangle q ((xs i, ys j), (xs (i + 1), ys (j + 1))) = true)
+    (hcentre : ∀ k, k < g.ncols → inRectangle (g.centre k) (g.bbox k) = true)
+    (hE : ∀ i j, i + 1 < nx → j < ny →
+      (i + 1 + nx * j) ∈ g.nbrs (i + nx * j) ∧ (i + nx * j) ∈ g.nbrs (i + 1 + nx * j))
+    (hN : ∀ i j, i < nx → j + 1 < ny →
+      (i + nx * (j + 1)) ∈ g.nbrs (i + nx * j) ∧ (i + nx * j) ∈ g.nbrs (i + nx * (j + 1))) :
+    Lattice g nx ny xs ys :=
+  { ncols := hn, monoX := hx, monoY := hy, centre := hcentre, nbrE := hE, nbrN := hN,
+    bbox := fun i j hi hj => by
+      obtain ⟨h1, h2, h3⟩ := hpoly i j hi hj
+      exact bounds_of_rectangle (R := ((xs i, ys j), (xs (i + 1), ys (j + 1)))) h3 h1 h2 }
+
+/-- hence on a rectangular lattice the search with the quadtree (and any guess) **agrees with plain
+    search at every point**, inside or outside the grid -/
+theorem quadtree_agrees_with_plain_rectangular (g : Geo) (nx ny : Nat) (xs ys : Nat → Rat) (L : Lattice g nx ny xs ys)
+    (bounds : Rect) (hcov : Covers bounds nx ny xs ys) (pos : Pt) (q : QT) (guess : Option Nat)
+    (hu : UniqueAt g pos) (hbuilt : columnQuadtree g bounds (List.range g.ncols) = some q) :
+    columnContainingPoint g pos { qtree := some q, guess := guess } = columnContainingPoint g pos {} := by
+  rw [plain_agrees_with_exhaustive g pos hu]
+  cases he : exhaustiveSearch g pos with
+  | some c =>
+    exact quadtree_search_complete_rectangular g nx ny xs ys L bounds hcov pos c _ q hu (exhaustive_some he) rfl hbuilt rfl
+  | none => exact outside_gives_none g pos _ (exhaustive_none he)
 
 /-- `search_wave` in the model is given `len(all_elements) + len(elements) + 1` units of fuel; giving
     it any more changes nothing, i.e. the model's loop always ends because the `todo` list empties
@@ -300,6 +354,36 @@ def islands : Geo :=
     layers := [ ⟨0, 0⟩, ⟨-1, 0⟩ ] }
 example : columnContainingPoint islands (21/16, 1/4) {} = some 1 ∧
           columnContainingPoint islands (21/16, 1/4) { qtree := columnQuadtree islands ((0, 0), (3, 1)) [0, 1] } = none := by
+  decide +kernel
+-- quadtree_search_complete_rectangular: a 2 × 2 lattice with unequal spacing (grid lines x = 0, 1, 3; y = 0, 2, 3),
+-- quadtree over a larger rectangle; the hypotheses hold and the search finds cell (1, 1) from a far guess
+def grid22 : Geo :=
+  { cols := [ { poly := [(0, 0), (0, 2), (1, 2), (1, 0)], centre := (1/2, 1), surface := 0, nbrs := [1, 2] },
+              { poly := [(1, 0), (1, 2), (3, 2), (3, 0)], centre := (2, 1), surface := 0, nbrs := [0, 3] },
+              { poly := [(0, 2), (0, 3), (1, 3), (1, 2)], centre := (1/2, 5/2), surface := 0, nbrs := [0, 3] },
+              { poly := [(1, 2), (1, 3), (3, 3), (3, 2)], centre := (2, 5/2), surface := 0, nbrs := [1, 2] } ],
+    layers := [ ⟨0, 0⟩, ⟨-1, 0⟩ ] }
+def gridX : Nat → Rat := fun i => if i = 0 then 0 else if i = 1 then 1 else 3
+def gridY : Nat → Rat := fun j => if j = 0 then 0 else if j = 1 then 2 else 3
+example : Lattice grid22 2 2 gridX gridY := by
+  have hb : ∀ i, i < 2 → ∀ j, j < 2 → grid22.bbox (i + 2 * j) = ((gridX i, gridY j), (gridX (i + 1), gridY (j + 1))) := by
+    decide +kernel
+  have he : ∀ i, i < 1 → ∀ j, j < 2 →
+      (i + 1 + 2 * j) ∈ grid22.nbrs (i + 2 * j) ∧ (i + 2 * j) ∈ grid22.nbrs (i + 1 + 2 * j) := by decide +kernel
+  have hn : ∀ i, i < 2 → ∀ j, j < 1 →
+      (i + 2 * (j + 1)) ∈ grid22.nbrs (i + 2 * j) ∧ (i + 2 * j) ∈ grid22.nbrs (i + 2 * (j + 1)) := by decide +kernel
+  exact { ncols := by decide, monoX := by decide +kernel, monoY := by decide +kernel,
+          bbox := fun i j hi hj => hb i hi j hj, centre := by decide +kernel,
+          nbrE := fun i j hi hj => he i (by omega) j hj, nbrN := fun i j hi hj => hn i hi j (by omega) }
+-- rectangular_columns_form_lattice: the polygon hypothesis holds on `grid22`
+example : ∀ i, i < 2 → ∀ j, j < 2 →
+    (gridX i, gridY j) ∈ grid22.poly (i + 2 * j) ∧ (gridX (i + 1), gridY (j + 1)) ∈ grid22.poly (i + 2 * j) ∧
+    ∀ q ∈ grid22.poly (i + 2 * j), inRectangle q ((gridX i, gridY j), (gridX (i + 1), gridY (j + 1))) = true := by
+  decide +kernel
+example : Covers ((-1, -1), (4, 4)) 2 2 gridX gridY := by unfold Covers; decide +kernel
+example : ∃ q, columnQuadtree grid22 ((-1, -1), (4, 4)) (List.range grid22.ncols) = some q ∧
+    grid22.containsPoint 3 (5/2, 9/4) = true ∧
+    columnContainingPoint grid22 (5/2, 9/4) { qtree := some q, guess := some 0 } = some 3 := by
   decide +kernel
 -- blocks: in a layer, under the raised surface, above everything, below everything
 example : blockContainingPoint demo (3/2, 1/4) (-2) none = .ok (some (2, 1)) := by decide +kernel
